@@ -442,7 +442,22 @@ func shortKey(k string) string {
 			op = strings.TrimSpace(o)
 		}
 	}
-	return strings.Join(fields, op)
+	short := strings.Join(fields, op)
+	// a function applied to the key (other than a widening conversion) is part of the key: f(Usage+Rate) orders by f's
+	// value, which may identify elements that the plain key tells apart
+	if i := strings.Index(k, "("); i > 0 {
+		name := k[:i]
+		plain := true
+		for _, ch := range name {
+			if !(ch == '_' || ch == '.' || ch >= '0' && ch <= '9' || ch >= 'A' && ch <= 'Z' || ch >= 'a' && ch <= 'z') {
+				plain = false
+			}
+		}
+		if plain && name != "float64" && name != "float32" {
+			short = name + "(" + short + ")"
+		}
+	}
+	return short
 }
 
 func negv(v []int) []int {
